@@ -19,7 +19,8 @@ def parseVP (j : Json) : VP :=
   let signer := match jStrs j "signer" with
     | [d, m] => some (d, m)
     | _ => none
-  let creds := (jArr j "creds").map (fun c => ({ exp := c.getNat?.toOption } : Cred))
+  let ids := (jArr j "credIds").map (fun b => b.getBool?.toOption.getD true)
+  let creds := ((jArr j "creds").zipIdx).map (fun (c, i) => ({ exp := c.getNat?.toOption, hasId := ids.getD i true } : Cred))
   let pexI := jInt j "pex"
   { jwt := jBool j "jwt", id := optStr j "id", aud := jStrs j "aud", exp := optNat j "exp", signer := signer,
     retraction := jBool j "retraction", creds := creds,
@@ -102,6 +103,12 @@ def step' (st : St) (j : Json) : St × List String :=
     let (w2, r) := step cfg st.d w1 (.pollB (permOf (jStrs j "order")))
     let (s, l) := observe { st with w := w2 } (if r.isOk then "err:other-service-down" else r.cls); (s, [l])
   -- `removeRevoked`: nothing is revoked; verification failures are not revocations
+  -- a quiescent poll whose response holds one extra presentation (stored last: everything the server really lists is held already)
+  | "pollinject" =>
+    let w := st.w
+    let resp := (w.S.rowsAfter w.C.lastTs).map (·.vp) ++ [parseVP (jObj j "vp")]
+    let (c', ctr', r) := clientApply cfg st.d w.C w.t w.ctr w.S.seed w.S.lastTs resp
+    let (s, l) := observe { st with w := { w with C := c', ctr := ctr', pending := none } } r.cls; (s, [l])
   | "purge" => let (s, l) := observe st "ok"; (s, [l])
   | "verifier" => let (s, l) := apply st (.clientVerifier (jBool j "up")); (s, [l])
   | "observe" => let (s, l) := observe st "ok"; (s, [l])
